@@ -43,7 +43,7 @@ class WAPProtocol(HTTPProtocol):
         if "accept" not in self.httpheaders:
             return False
 
-        if not re.search("[, ]text/vnd.wap.wml", self.httpheaders["accept"]):
+        if not re.search(r"(^|[,\s])text/vnd.wap.wml", self.httpheaders["accept"]):
             return False
 
         # By now, we know that it lists WML in accept.  Let's try a few
